@@ -191,12 +191,18 @@ Lemma old_steps_not_wf :
 Proof. vm_compute. reflexivity. Qed.
 
 (* ---------------------------------------------------------------- what a REQUEST can change *)
-(* Server side: every simulation write of every handler block is `status` or the user's key_callback (called inside the mutex); no handler
-   steps the simulation.  Integrator side: inside the regions of reb_check_exit / reb_simulation_integrate_raw that are control-dependent
-   on a test of r->status against a value a request can set (pause loop, single-step countdown, keep-paused test of the prologue) the only
-   field written is `status` and the only functions called are sleeps / the mutex helpers.  So a request changes WHEN steps run, never
-   the state the steps operate on.  (allowed_request_calls is a hand-kept classification: functions that do not touch the simulation.) *)
-Definition allowed_request_calls : list string := ["usleep"; "emscripten_sleep"; "reb_server_mutex_lock"; "reb_server_mutex_unlock"].
+(* Everything here is regenerated: the EFFECT sets come from an interprocedural analysis of the C code (tools/translate_lockproto.py):
+     field:f  store to member f of the simulation struct        via:f     store through pointer member f (r->particles[i].x ...)
+     opaque:g a writable simulation is handed to g (body not visible / function pointer)   extptr:f:g pointer into the simulation given to external g
+   and the call lists contain only functions reached WITHOUT any access to the simulation; they are checked against the list of external
+   (libc/pthread) functions of Gen/Statics.v, so no hand-kept list of "harmless functions" is left.
+   Integrator side: inside the regions of reb_check_exit / reb_simulation_integrate_raw that are control-dependent on a test of r->status
+   against a value a request can set, the only effect is a store to `status`.  Server side: every handler's effects are within
+   {store to status, the user's key_callback, the serialisation}.  So a request changes WHEN steps run, never the state they operate on. *)
+Definition subset (a b : list string) : bool := forallb (fun x => existsb (String.eqb x) b) a.
+Definition allowed_request_effects : list string := ["field:status"; "via:server_data"].
+Definition allowed_handler_effects : list string :=
+  ["field:status"; "via:server_data"; "opaque:(*key_callback)"; "opaque:reb_simulation_save_to_stream"].
 Definition srv_act_ok (x : act) : bool :=
   match x with
   | AWriteBegin l | AWriteEnd l => existsb (String.eqb l) ["field:status"; "(*key_callback)"]
@@ -205,9 +211,12 @@ Definition srv_act_ok (x : act) : bool :=
   end.
 Lemma gen_request_write_set :
   request_triggered_writes = ["field:status"] /\
-  forallb (fun c => existsb (String.eqb c) allowed_request_calls) request_triggered_calls = true /\
+  subset request_triggered_writes allowed_request_effects = true /\
+  subset request_triggered_calls external_calls_default = true /\
   request_triggered_regions = 3 /\
   request_guard_constants = ["REB_STATUS_PAUSED"; "REB_STATUS_RUNNING"; "REB_STATUS_SCREENSHOT"; "REB_STATUS_SINGLE_STEP"; "REB_STATUS_USER"] /\
+  forallb (fun h => subset (snd (fst h)) allowed_handler_effects && subset (snd h) external_calls_default) handler_effects = true /\
+  map (fun h => fst (fst h)) handler_effects = map fst handlers /\
   forallb (forallb srv_act_ok) (blocks (gen_system false)) = true.
 Proof. vm_compute. repeat split. Qed.
 
@@ -215,12 +224,65 @@ Proof. vm_compute. repeat split. Qed.
 Lemma gen_server_actions_ok : forall s x, reach gen_system s ->
   nth_error (cur_block gen_system false (tS s)) (pco (tS s)) = Some x -> srv_act_ok x = true.
 Proof.
-  intros s x _ H. destruct gen_request_write_set as [_ [_ [_ [_ W]]]].
+  intros s x _ H. destruct gen_request_write_set as [_ [_ [_ [_ [_ [_ [_ W]]]]]]].
   rewrite forallb_forall in W. unfold cur_block in H.
   destruct (Nat.lt_ge_cases (pcb (tS s)) (length (blocks (gen_system false)))) as [Hl|Hl].
   - specialize (W _ (nth_In _ [] Hl)). rewrite forallb_forall in W. apply W. eapply nth_error_In. exact H.
   - rewrite nth_overflow in H by exact Hl. destruct (pco (tS s)); discriminate.
 Qed.
+
+(* ---------------------------------------------------------------- teardown: is the server thread joined before memory is freed? *)
+(* The server thread may read ANY member of the simulation (reb_simulation_save_to_stream) until reb_simulation_stop_server has joined it.
+   A teardown sequence is executed by the freeing thread; `alive` = the server thread has not been joined yet. *)
+Definition is_release (x : string) : bool := String.prefix "free:" x || String.prefix "opaque:" x.
+Fixpoint uaf_window (alive : bool) (l : list string) : list string :=
+  match l with
+  | [] => []
+  | x :: r => if String.eqb x "stop_server" then uaf_window false r
+              else (if alive && is_release x then [x] else []) ++ uaf_window alive r
+  end.
+(* small-step reading: (alive, freed-while-alive) after each action; unsafe states are exactly the elements of uaf_window *)
+Fixpoint teardown_run (alive : bool) (l : list string) : list (string * bool) :=
+  match l with
+  | [] => []
+  | x :: r => let alive' := if String.eqb x "stop_server" then false else alive in (x, alive && is_release x) :: teardown_run alive' r
+  end.
+Lemma uaf_window_spec : forall l alive, uaf_window alive l = map fst (filter snd (teardown_run alive l)).
+Proof.
+  induction l as [|x r IH]; intro alive; [reflexivity|].
+  cbn [uaf_window teardown_run]. destruct (String.eqb x "stop_server") eqn:E.
+  - apply String.eqb_eq in E. subst x. cbn. rewrite andb_false_r. cbn. apply IH.
+  - destruct (alive && is_release x); cbn; rewrite IH; reflexivity.
+Qed.
+Lemma uaf_window_safe : forall l, uaf_window true l = [] -> forall x b, In (x, b) (teardown_run true l) -> b = false.
+Proof.
+  intros l H x b Hin. rewrite uaf_window_spec in H. destruct b; [|reflexivity].
+  assert (Hf : In (x, true) (filter snd (teardown_run true l))) by (apply filter_In; split; [exact Hin | reflexivity]).
+  apply (in_map fst) in Hf. rewrite H in Hf. destruct Hf.
+Qed.
+
+Definition index_of (x : string) (l : list string) : nat :=
+  (fix go (l : list string) (i : nat) := match l with [] => i | y :: r => if String.eqb x y then i else go r (S i) end) l 0.
+
+(* reb_simulation_free_pointers stops (cancels + joins) the server thread before it releases anything (since /repo 9350489), and
+   reb_simulation_free releases the struct only after that; inside reb_simulation_stop_server: cancel < join < free(server_data) *)
+Lemma gen_teardown :
+  uaf_window true teardown_free_pointers = [] /\
+  hd "" teardown_free_pointers = "stop_server" /\
+  teardown_free = ["opaque:reb_simulation_free_pointers"; "free:<simulation>"] /\
+  index_of "call:pthread_cancel" teardown_stop_server < index_of "call:pthread_join" teardown_stop_server /\
+  index_of "call:pthread_join" teardown_stop_server < index_of "free:server_data" teardown_stop_server /\
+  index_of "free:server_data" teardown_stop_server < length teardown_stop_server /\
+  uaf_window true (filter (fun x => negb (String.eqb x "call:pthread_join")) (map (fun x => if String.eqb x "call:pthread_join" then "stop_server" else x) teardown_stop_server)) = [].
+Proof. vm_compute. repeat split; repeat constructor. Qed.
+(* hence, in the run of the freeing thread, nothing is released while the server thread is alive *)
+Lemma gen_teardown_safe : forall x b, In (x, b) (teardown_run true teardown_free_pointers) -> b = false.
+Proof. apply uaf_window_safe. exact (proj1 gen_teardown). Qed.
+(* not vacuous: the order of /repo before 9350489 (stop_server in third place) has a window *)
+Lemma old_teardown_window :
+  uaf_window true ["free:simulationarchive_filename"; "free:display_settings"; "stop_server"; "free:particles"] =
+  ["free:simulationarchive_filename"; "free:display_settings"].
+Proof. vm_compute. reflexivity. Qed.
 
 (* process-level hygiene of the server thread: no exit of the request loop closes a connection descriptor twice
    (fclose(fdopen(fd)) followed by close(fd) would close a descriptor that another thread may have just opened; fixed in /repo bc586ce) *)
